@@ -497,6 +497,11 @@ func (vc *FuncVC) run() {
 			vc.assume(True, t)
 		}
 	}
+	if vc.sweepNonNil {
+		for _, p := range fn.Params {
+			vc.assume(True, sweepParamFact(p, vc.val(p)))
+		}
+	}
 	if vc.con != nil {
 		for _, r := range vc.con.Requires {
 			e := *entryEnv
